@@ -135,6 +135,24 @@ Reg r11("c20.mat4inv", [](const Args& a) {
 });
 // c20.bounds <ver> <verts1> <verts2>: create a shape from verts1, recompute bounds, move the vertices to verts2
 // (same count), recompute bounds again
+// Matrix4::operator* on its own (the model's Mat4.mul is what the inverse theorems are stated with)
+Reg r13("c20.mat4mul", [](const Args& a) {
+	auto f = floats(a[1]), g = floats(a[2]);
+	Matrix4 m, n;
+	for (int i = 0; i < 16; ++i) {
+		m[i] = f[static_cast<size_t>(i)];
+		n[i] = g[static_cast<size_t>(i)];
+	}
+	Matrix4 prod = m * n;
+	Matrix4 acc = m;
+	acc *= n;
+	std::vector<float> p, q;
+	for (int i = 0; i < 16; ++i) {
+		p.push_back(prod[i]);
+		q.push_back(acc[i]);
+	}
+	return show(p) + " " + show(q);
+});
 Reg r12("c20.bounds", [](const Args& a) {
 	NifFile nif;
 	NiVersion ver = a[1] == "sse" ? NiVersion::getSSE() : a[1] == "fo4" ? NiVersion::getFO4() : a[1] == "ob" ? NiVersion::getOB() : NiVersion::getSK();
